@@ -1918,11 +1918,13 @@ func (r *Resolvable) walkArray(arr *Array, value *astjson.Value) bool {
 		err := r.walkNode(arr.Item, arrayValue)
 		r.popArrayPathElement()
 		if err {
-			if arr.Item.NodeKind() == NodeKindObject && arr.Item.NodeNullable() {
+			itemKind := arr.Item.NodeKind()
+			if (itemKind == NodeKindObject || itemKind == NodeKindArray) && arr.Item.NodeNullable() {
 				value.SetArrayItem(r.astjsonArena, i, astjson.NullValue)
 				continue
 			}
-			if arr.Nullable {
+			// A list that is itself the item of a list has no path: the enclosing list nulls the item.
+			if arr.Nullable && len(arr.Path) > 0 {
 				astjson.SetNull(r.astjsonArena, parent, arr.Path...)
 				return false
 			}
